@@ -1,210 +1,266 @@
 #!/usr/bin/env python3
-"""Regenerate MANIFEST.json from the per-property descriptions below and the harness modules present."""
+"""Regenerate MANIFEST.json from the per-property descriptions below and the harness modules present.
+
+The texts are kept in step with docs/THEOREMS.md (generated inventory of the audited theorems) and with the
+two independent audits (docs/AUDIT-1.md, docs/AUDIT-2.md): each says what is PROVED (kernel-checked theorem
+about the model), under which remaining hypotheses, and what rests on the correspondence run only ("T2 only").
+"""
 import json
 import os
 
 VERIF = os.path.dirname(os.path.dirname(os.path.abspath(__file__)))
 
-TB = ("Trusted: Lean 4.33 kernel; axioms propext/Classical.choice/Quot.sound only (audited by #print axioms on "
-      "every run); the Spec.* transcription of the reference; the compiled driver (Lean compiler); the Python "
-      "harness. ")
+TB = ("Trusted beyond the Lean kernel (axioms propext/Classical.choice/Quot.sound only, audited by #print axioms on "
+      "every run; no native_decide anywhere): the Spec.* transcription of the reference; that Model.* matches the "
+      "Python code — established only by the differential run of the compiled model (Lean compiler) against the real "
+      "code on generated inputs, by the regenerated tables (T1) and by reading; CPython semantics as modelled; the "
+      "Python harness. ")
 
 P = {
  'C01': dict(
-  text="Lean theorems for every well-formed transaction/header/block of any size: Model serialisation = Spec wire "
-       "bytes (ser_eq_spec, marker_iff), deserialise∘serialise = normalised object that re-serialises identically "
-       "(de_ser), every strict prefix → truncation (prefix_trunc), surplus → extra-data error carrying object and "
-       "padding (extra_data), padding allowed; generic codec library (Dec/Sound closed under sequencing, vectors, "
-       "var-bytes). Model tied to the code by T1 (MAX_SIZE) and a differential run of every prefix/extension of "
-       "generated encodings on both the mutable and immutable classes.",
-  note=TB + "CPython struct/BytesIO semantics are modelled (range errors explicit). WF = the property's wire ranges incl. ≥1 input and item lengths ≤ MAX_SIZE.",
+  text="PROVED for every well-formed transaction/header/block of any size (WF = the property's wire ranges, ≥ 1 "
+       "input, item lengths ≤ MAX_SIZE): Model serialisation = Spec wire bytes, the BIP144 form iff some witness "
+       "stack is non-empty (Spec condition independent of the model's is_null mirror), deserialise∘serialise = the "
+       "normalised object that re-serialises identically for the immutable AND the mutable class, every strict "
+       "prefix → truncation error, surplus → extra-data error carrying object and padding, padding allowed; and for "
+       "ARBITRARY bytes the deserialisers only return ok / truncation / size error (deTx_total etc.). Generic codec "
+       "library (Dec/Sound closed under sequencing, vectors, var-bytes). T1: MAX_SIZE. T2: every prefix/extension of "
+       "generated encodings on both classes, CompactSize boundaries of every count/length.",
+  note=TB + "Fields are Nat/Int in wire range; negative values assigned to mutable objects are outside the model.",
   tech="Lean 4 proof (codec soundness by induction) + generated-table equality + model/implementation correspondence"),
  'C02': dict(
-  text="Lean theorems for every hash function H (SHA-256d opaque): txid = H(stripped bytes) and independent of any "
-       "witness assignment, wtxid = H(full bytes), full = stripped bytes iff no witness (so ids differ exactly when "
-       "a stack is non-empty, collision-freeness an explicit hypothesis), block hash = header hash independent of "
-       "vtx, ==/hash determined by the serialisation. Tied by differential runs of GetTxid/GetHash/==/hash() on "
-       "immutable and mutable classes against the Lean SHA-256.",
+  text="PROVED for every hash function H (SHA-256d opaque): txid = H(stripped bytes), independent of any witness "
+       "assignment; wtxid = H(full bytes); full = stripped bytes iff no witness (ids differ exactly when a stack is "
+       "non-empty, collision-freeness on the two preimages an explicit hypothesis); block hash = header hash "
+       "whatever vtx; ==/hash() determined by the serialisation, NotImplemented across class families. The clause "
+       "'mutable and immutable objects agree' is definitional in this value-level model (the class tag is never "
+       "read) — its content is proved on C09's heap model (heap_ident_eq_value) and tied by T2: hash/==/GetHash/dict "
+       "membership compared for every class pair, also after in-place edits.",
   note=TB + "SHA-256 is an executable reference validated against hashlib by the run, never unfolded in proofs.",
   tech="Lean 4 proof (algebraic laws over an opaque hash) + model/implementation correspondence"),
- 'C08': dict(
-  text="Lean theorems for all integers / all byte strings / all token lists: script-number codec bijection at spec and "
-       "at code level (MPI route), builder = reference minimal encoding, iter∘build = canonical tokens, "
-       "build∘iter∘build = build, raw iteration is a partition (with truncated-push remainder), every predicate = its "
-       "reference definition, sigop counts (both modes) = Core's GetOp-based count. Tied by exhaustive runs over all "
-       "scripts ≤ 2 bytes, generated token lists and scripts.",
-  note=TB + "bn2vch/encode_op_pushdata fail at 2^32-byte encodings; theorems state that boundary.",
-  tech="Lean 4 proof (structural induction over scripts) + model/implementation correspondence (exhaustive short scripts)"),
- 'C10': dict(
-  text="Lean theorems for every byte string / every string: encode/decode = big-integer reference, mutual inverses "
-       "(leading zeros/'1's), invalid character ⇔ InvalidBase58Error, CBase58Data accepts exactly version‖payload‖"
-       "H(version‖payload)[:4] with total length ≥ 5 and otherwise raises the checksum error, text round trip for all "
-       "256 versions. Tied by T1 (alphabet) and exhaustive short strings + every single-character corruption of valid "
-       "strings.",
-  note=TB + "check_roundtrip assumes |H x| ≥ 4 (true of SHA-256; not proved for the array implementation).",
-  tech="Lean 4 proof (Nat.digits-style numeral lemmas) + generated-table equality + model/implementation correspondence"),
- 'C11': dict(
-  text="Lean theorems: polymod = BIP173 BCH residue, checksum_verifies, convertbits padding rule and round trip, "
-       "decode accepts ⇔ Spec.ValidSegwit, encode_decode for all versions/lengths, mixed case rejected, and the code "
-       "distance: any 1–4 substitutions anywhere in a valid ≤90-char address are rejected (detects_le2, "
-       "detects_le4 — both kernel-checked with the standard axioms: the weight-3/4 bound is reduced to 963 "
-       "`decide +kernel` shard theorems over a generated, untrusted look-up table). Truncation/extension/insertion/"
-       "deletion are covered by the run only (the BCH code guarantees nothing there). Tied by T1 (charset, generator "
-       "read from the AST) and exhaustive single/sampled-or-exhaustive double substitutions.",
-  note=TB + "No native_decide anywhere.",
-  tech="Lean 4 proof (GF(2)-linear algebra of the BCH code; sharded decide +kernel for the distance bound) + tables + correspondence"),
- 'C12': dict(
-  text="Lean theorems over all selection histories and all strings: SelectParams invariant (params = coreparams = last "
-       "selected), round trip script→address→text→address→script for 4 templates × 4 chains with the prescribed "
-       "class/prefix/payload, refuse_total (any text is a valid address of the selected chain or CBitcoinAddressError — "
-       "no other outcome), cross-chain refusal. Tied by T1 (chain table) and runs over random selection histories, "
-       "cross-chain addresses, witness versions 1..16 and mutated strings.",
-  note=TB + "cross_chain_refused_bech32's base58 re-reading clause has the 32-bit checksum as explicit hypothesis.",
-  tech="Lean 4 proof (invariant over selection histories, decision logic) + generated-table equality + correspondence"),
- 'C15': dict(
-  text="Lean theorems for every non-empty hash list / transaction list: the loop-based merkle tree's last node = "
-       "recursive reference root, witness root with coinbase zeroed / NoWitnessData, constructor decision (zero root "
-       "filled, wrong root refused), weight = 3·stripped + full for transactions (both code branches) and blocks. Tied "
-       "by runs over counts 1..70, 2^k±1, CompactSize boundaries, duplicates, ± witness.",
-  note=TB + "hash256 opaque; merkleRoot_length assumes |hash256 x| = 32.",
-  tech="Lean 4 proof (loop invariant = recursion) + model/implementation correspondence"),
- 'C16': dict(
-  text="Lean theorems: CheckTransaction accepts ⇔ Spec.ValidTx, CheckBlockHeader ⇔ Spec.ValidHeader, CheckBlock ⇔ "
-       "Spec.ValidBlock (both switches), every rejection is a validation error (no IndexError/invalid-script outcome "
-       "reachable), commitment index = last matching output, sigop count = Core's. Tied by T1 (limits, chain table) "
-       "and, per generated valid block, every single-rule violation on both sides of each boundary under each chain.",
-  note=TB + "PoW part reuses C17's pow_iff; hash256/merkle are shared opaque symbols.",
-  tech="Lean 4 proof (decision logic accept ⇔ Spec) + generated-table equality + correspondence (fault catalogue)"),
- 'C17': dict(
-  text="Lean theorems over all compact values / all 256-bit integers: decode_spec, toCompact_canonical, decode_encode "
-       "(= truncation to three sign-magnitude bytes), encode_decode on canonical values, pow_iff against Bitcoin "
-       "Core's SetCompact/CheckProofOfWork. Tied by T1 (chain limits) and a differential run over all exponents × "
-       "boundary mantissas, all bit lengths, hashes at target±1 under the four chains.",
-  note=TB + "Python int &,>>,<< modelled as mod/div/mul by powers of two.",
-  tech="Lean 4 proof (omega/interval_cases arithmetic) + generated-table equality + correspondence"),
- 'C18': dict(
-  text="Lean theorems for all 17 message types and any field values in range: payload = protocol layout "
-       "(payload_eq_spec), frame = magic‖command‖length‖checksum‖payload (frame_eq_spec), parse∘frame = message with "
-       "the stream left exactly after the frame (parse_frame, reframe_identical), streams of frames parse in order "
-       "(parse_stream, parse_stream_append), wrong magic/checksum rejected, every strict prefix → truncation, "
-       "length_guard and position_le_frame_end (never reads beyond the frame; > MAX_SIZE → error after 24 bytes). Tied "
-       "by T1 (commands, messagemap, version constants, chain magic) and runs with every single-byte corruption and "
-       "truncation of small frames under the four chains.",
-  note=TB + "SHA-256d checksum has ≥ 4 bytes is an explicit hypothesis (ChecksumLen); altered-payload rejection assumes the 32-bit checksum differs (explicit hypothesis).",
-  tech="Lean 4 proof (codec round trip with stream position, fault-class decision logic) + tables + correspondence"),
  'C03': dict(
-  text="Lean theorems for every transaction, every subscript that parses, every index 0..|vin| and all hash types: "
-       "FindAndDelete of OP_CODESEPARATOR = concatenation of the other operations (push data untouched), "
-       "RawSignatureHash as written (scratch copy, blanking, list surgery) = Bitcoin Core's on-the-fly "
-       "CTransactionSignatureSerializer digest incl. the HASH_ONE cases (raw_eq_spec, err_iff), wrapper raises "
-       "ValueError iff err. Tied by T1 (SIGHASH constants, HASH_ONE from the AST) and runs over all 256 hash types "
-       "per sampled (tx, subscript, index), checking that the caller's transaction is unchanged.",
-  note=TB + "SHA-256d opaque; the aliasing half (never changes the transaction it was given) is observed by T2 and modelled in C09's heap model.",
+  text="PROVED for every transaction in wire range, every subscript that parses, every index incl. non-existing ones "
+       "and every Python-int hash type in int32 (negatives reduce mod 2^32; outside int32 struct.error): "
+       "FindAndDelete of OP_CODESEPARATOR = the other operations (push data untouched), RawSignatureHash as written "
+       "(scratch copy, blanking, list surgery) = Bitcoin Core's on-the-fly serializer digest incl. the HASH_ONE "
+       "cases (raw_eq_spec, err_iff); the convenience form returns that digest or raises ValueError iff err — stated "
+       "for the property-conforming wrapper; the shipped wrapper additionally asserts on witness-program-SHAPED "
+       "subscripts: KNOWN FINDING D17 (not repaired; the as-coded wrapper is modelled and tied too). 'Never changes "
+       "the transaction' holds by purity of the model; its content is C09's sighash_keeps_objects and T2 "
+       "(serialisation compared before/after, histories on one live object). Negative input indices are outside the "
+       "quantifier and not modelled here. T1: SIGHASH constants, the constant 'one' read behaviourally. T2: all 256 "
+       "hash types per case, standard template shapes as subscripts.",
+  note=TB + "SHA-256d opaque.",
   tech="Lean 4 proof (Model = Spec for all hash types) + tables + correspondence (256 hash types exhaustive per case)"),
  'C04': dict(
-  text="Lean theorems for every transaction in wire range, valid index, script code of any length, amount in "
-       "[0,2^63), all hash types: witness-v0 SignatureHash = BIP143 digest (bip143_eq_spec) and is defined on the "
-       "whole range (bip143_defined / bip143_no_pyexc: no struct.error branch reachable). Tied by runs over all 256 "
-       "hash types with lock time/sequence/amount at their unsigned and signed edges.",
-  note=TB + "SHA-256d opaque.",
+  text="PROVED for every transaction in wire range, valid index, script code of any length, amount in the whole "
+       "int64 range and hash types in int32: witness-v0 SignatureHash = BIP143 digest (bip143_eq_spec) and is defined "
+       "(no struct.error branch reachable: bip143_defined / bip143_no_pyexc); the digest ignores scriptSigs and "
+       "witness. T2: all 256 hash types with lock time/sequence/amount at unsigned and signed edges, standard "
+       "template shapes as script codes, non-existing indices and out-of-range amounts (modelled error outcomes), "
+       "histories on one live mutable object.",
+  note=TB + "SHA-256d opaque. Negative input indices are outside the quantifier and not modelled.",
   tech="Lean 4 proof (Model = BIP143 Spec; definedness = dead error branches) + correspondence"),
- 'C09': dict(
-  text="Lean theorems over all operation histories on a heap model with Python reference semantics (objects, shared "
-       "children, per-object hash caches, from_* constructors as coded, RawSignatureHash executed on the heap): "
-       "invariant (immutable roots reach only immutable objects; filled caches equal the hash of the current "
-       "serialisation; no mutable object shared between copies) holds initially and is preserved by every operation "
-       "(inv_reachable), the heap model refines the pure value-semantics spec on every observable "
-       "(refines_value_spec), setattr/delattr on immutables rejected with the state unchanged, sighash/verify "
-       "preserve every existing object (sighash_keeps_objects, verify_keeps_objects), copies unaffected by later "
-       "edits (copy_unaffected). Tied by random histories (all histories ≤ 3 ops exhaustively in the thorough tier) "
-       "executed on real objects and on the model, comparing serialisation/ids/hash/== of every live object after "
-       "every step.",
-  note=TB + "Objects are created through the property's operation catalogue only; witness-v0 sighash is modelled by its heap footprint.",
-  tech="Lean 4 proof (invariant by induction over histories + refinement to a value spec) + correspondence on operation histories"),
- 'C19': dict(
-  text="Lean theorems: amount_in_exact (any JSON number text denoting k satoshis is converted to exactly k, incl. the "
-       "number scanner and Decimal's 28-digit context), hash_roundtrip / b2lx_is_core_form (byte-reversed hex both "
-       "ways), hex_transport, error_reply_raises (a non-null error always raises the class registered for its code, "
-       "never a result — registered, unregistered, missing, non-dict), ids_strictly_increase over all call "
-       "histories. PARTIAL on the send side: amount_out_exact_partial is proved over the rationals with binary64 "
-       "spacing and the shortest-repr contract as hypotheses (IEEE-754/float.__repr__ are not modelled); every "
-       "request body is re-parsed with exact decimal arithmetic in the run. Tied by T1 (error-code table) and an "
-       "injected scripted HTTP connection.",
-  note=TB + "Partial: float(amount)/COIN and float.__repr__ are covered by the correspondence run only.",
-  tech="Lean 4 proof (decimal exactness, decision logic, counter invariant) + tables + correspondence via injected connection"),
- 'C20': dict(
-  text="Lean theorems for every seed/tweak and every byte list: Python-int MurmurHash3 with late masking = UInt32 "
-       "reference (murmur_eq_spec), bits set by insert = BIP37 schedule (bits_eq_schedule), contains = membership "
-       "predicate, no_false_negative over all histories of inserts and wire round trips, caps (≤ 36000 bytes, ≤ 50 "
-       "functions) for all sizing inputs, ser_roundtrip, empty_matches_all. PARTIAL: math.log and the float products "
-       "of the constructor are abstract rationals. Tied by T1 (caps, flags) and runs over all tail lengths, insertion "
-       "histories interleaved with queries and round trips, wire filters with empty data.",
-  note=TB + "Partial: the exact size for (nElements, nFPRate) is not claimed (floating point).",
-  tech="Lean 4 proof (UInt32 wrap-around = masked Nat arithmetic; monotone-bits invariant over histories) + tables + correspondence"),
- 'C13': dict(
-  text="PARTIAL: proof for what python-bitcoinlib itself computes (the glue); the clauses about the curve (pubkey = k·G, verify ⇔ reference, is_fullyvalid ⇔ SEC1 point) are tied by the correspondence run only. Lean theorems: strict-DER "
-       "encode/decode round trip and strictness (der_roundtrip, der_strict), CompareBigEndian = sign of the integer "
-       "difference, IsLowDERSignature ⇔ 0 < s ≤ n/2 on strict DER with no IndexError (isLowDer_iff), low-S "
-       "normalisation spec (∈ {s, n−s}, low, idempotent), CECKey.sign = strict DER of (r, lowS s), WIF payload layout "
-       "and round trip under every chain's version byte, curve-constant kernel checks (G on curve, n·G = ∞), abstract "
-       "ECDSA over any prime-order group (verify_sign, verify_lowS_twin). PARTIAL: the elliptic-curve arithmetic runs "
-       "inside OpenSSL; k·G, ECDSA_sign/verify, point validation are tied only by the correspondence run against the "
-       "independent Lean secp256k1 (secrets 1,2,n−1,n−2,…; verification matrix incl. twins, 0, n; on/off-curve, "
-       "hybrid keys; four chains). T1: chain version bytes.",
-  note=TB + "Not proved: that the Lean secp256k1 formulas form a group of order n; OpenSSL behaviour; random nonces. These are covered by T2 only.",
-  tech="Lean 4 proof of the glue (DER, low-S, WIF, header bytes) + abstract ECDSA algebra + correspondence against a Lean reference curve"),
- 'C14': dict(
-  text="PARTIAL: proof for the glue; recovery of the signer's key and rejection of other messages are tied by the correspondence run only. Lean theorems: message digest = SHA-256d of varint-prefixed magic ‖ "
-       "varint-prefixed UTF-8 message for any length (msg_digest_eq_spec), header byte 27+recid+4·compressed and its "
-       "inverse (header_roundtrip), sign_compact layout (r‖s 32-byte big-endian, recid < 4), VerifyMessage's decision "
-       "(true only for the address of the recovered key and the same message), abstract recovery algebra "
-       "(recover_correct). UNPROVED (kept at full strength in Props/C14.lean): recover_eq_reference (the Python "
-       "recovery code = SEC1 §4.1.6). PARTIAL: OpenSSL arithmetic is tied only by the run: Lean recovery reproduces "
-       "the signer's key, VerifyMessage true for the signer's P2PKH address, false for other keys, other address "
-       "types with the same hash160, and perturbed messages.",
-  note=TB + "OpenSSL (BN_*, EC_POINT_*) inside recover is covered by T2 only.",
-  tech="Lean 4 proof of the glue (digest layout, header byte, decision logic) + abstract recovery algebra + correspondence against a Lean reference curve"),
- 'C06': dict(
-  text="Lean simulation theorems between the model of scripteval.py (as written, every Python exception site "
-       "explicit) and a reference interpreter in the shape of Bitcoin Core's interpreter.cpp, for arbitrary byte "
-       "lists as scripts, arbitrary initial stacks and contexts: step_equiv per opcode class, lifted to eval_equiv / "
-       "eval_fails_iff (fails exactly when the reference fails) and eval_stack (same final stack), and verify_equiv "
-       "(VerifyScript accepts exactly when the reference accepts) under the 12 admissible flag sets — every opcode "
-       "class including CHECKSIG/CHECKMULTISIG with FindAndDelete, CODESEPARATOR, NULLDUMMY, and all four limits; "
-       "script-number codec = CScriptNum on all integers. Tied by T1 (all 256 opcodes, names, disabled set, limits) "
-       "and runs: every 1-opcode program × ~60 stacks × 12 flag sets, grammar-generated programs with real "
-       "signatures, limit probes, multi-call histories.",
-  note=TB + "Hypotheses of the full theorems: 0 ≤ inIdx; the signature check ignores a leading OP_CODESEPARATOR of the script code (what C03's findAndDelete_codesep gives for the real sighash); hash outputs ≤ 520 bytes; EvalScript caller stack ≤ 1000 items. Signature checking is an opaque function shared by both sides (strict-DER/SEC1 domain of the property).",
-  tech="Lean 4 proof (forward simulation model ↔ reference interpreter, induction over the operation list) + tables + correspondence (exhaustive short programs)"),
- 'C07': dict(
-  text="Lean theorems for ARBITRARY byte lists as scriptSig/scriptPubKey: verify_total (structural termination), "
-       "only_known_findings / verify_contained (with 0 ≤ inIdx and admissible flags the outcome is ok or a "
-       "validation error: every IndexError / KeyError / struct.error / AssertionError / invalid-script site of the "
-       "model is dead), error_state_limits (captured state ≤ 1003 items, ≤ 221 counted ops, elements ≤ 520 bytes), "
-       "and the same for EvalScript. Side-effect freedom is proved on C09's heap model and observed here. Tied by "
-       "runs on random and structure-aware mutated byte strings (0..10 001 bytes, truncated pushes at every position, "
-       "P2SH with garbage redeem scripts), mutable and immutable transactions, in/out-of-range indices; txTo and "
-       "scripts compared before/after. Known findings D6, D7 are listed in known_findings.json.",
-  note=TB + "HashesOK (hash outputs ≤ 520 bytes) is a hypothesis; OpenSSL's tolerant DER parsing is outside the model (domain restriction of the property).",
-  tech="Lean 4 proof (dead-branch / invariant by induction over interpreter steps) + correspondence on arbitrary byte strings"),
  'C05': dict(
-  text="PARTIAL (cryptographic half assumed). Lean theorems. Commitment table, exact, for all transactions: two transactions that agree on every part the "
-       "hash type commits to have the same legacy digest (agree_sighash_eq, uncommitted_edit_preserves — no "
-       "hypothesis); a committed edit that changes a committed part changes the hashed message "
-       "(committed_edit_changes, from injectivity of the wire encoding = C01's round trip) and hence the digest under "
-       "the explicit collision-resistance hypothesis. Closed-form verdicts of the C06 interpreter model on P2PK, "
-       "P2PKH, bare m-of-n (1 ≤ m ≤ n ≤ 20: accepted iff the signatures match a subsequence of the keys in order) and "
-       "their P2SH wrappings with the signature check abstract (template_accepts_*, template_rejects_wrong_key_*), "
-       "and verdict-under-edit theorems (uncommitted edit: same verdict, no assumption; committed edit: rejected, "
-       "given collision resistance and signature uniqueness). PARTIAL by nature: ECDSA correctness/unforgeability and "
-       "SHA-256d collision resistance are hypotheses. Tied end to end: spends of every template are signed with the "
+  text="PARTIAL (the cryptographic half is assumed). PROVED, commitment table for all transactions: agreement on "
+       "every part the hash type commits to ⇒ same legacy digest (no hypothesis); a committed edit that changes a "
+       "committed part changes the hashed message (from injectivity of the wire encoding = C01) and hence the digest "
+       "under collision resistance on those two messages (explicit hypothesis). PROVED, closed-form verdicts of the "
+       "C06 interpreter model on P2PK, P2PKH, bare m-of-n (1 ≤ m ≤ n ≤ 20: accepted iff the signatures match a "
+       "subsequence of the keys in order) and their P2SH wrappings, also for the concrete context (C03 model of "
+       "RawSignatureHash + strict-DER ECDSA over the Lean curve); an uncommitted edit leaves the verdict unchanged "
+       "(no assumption); a committed edit is rejected given that the old signature does not verify for the new "
+       "digest (single-instance unforgeability hypothesis — its consequent is equivalent to the conclusion: the "
+       "theorem's content is the table plus the template evaluation). ASSUMED, never proved: a library-made signature "
+       "verifies (needs the group law of the curve) — tied end to end by T2: every template is signed with the "
        "library, verified by VerifyScript and by the model with the Lean ECDSA, then every single edit of the "
        "catalogue is applied and impl = model = table prediction is required.",
-  note=TB + "Cryptographic half (unforgeability, collision resistance) is assumed, never an axiom; OpenSSL signing is covered by the run.",
+  note=TB + "Hypotheses: SHA-256d collision resistance per instance; ECDSA correctness/unforgeability per instance; OpenSSL signing covered by the run.",
   tech="Lean 4 proof (commitment table via encoding injectivity; symbolic evaluation of the interpreter model on templates) + end-to-end sign/verify/edit correspondence"),
+ 'C06': dict(
+  text="PROVED: forward simulation between the model of scripteval.py (as written, every Python exception site "
+       "explicit) and a reference interpreter in the shape of Bitcoin Core's interpreter.cpp, for arbitrary byte "
+       "lists as scripts: step_equiv_full for every opcode class incl. CHECKSIG/CHECKMULTISIG with FindAndDelete, "
+       "CODESEPARATOR, NULLDUMMY and all four limits, lifted to eval_equiv/eval_fails_iff/eval_stack and "
+       "verify_equiv under the 12 admissible flag sets; instantiated on the CONCRETE environment the driver runs "
+       "(real hashes with proved digest lengths, C03's model of RawSignatureHash incl. Python's wrap-around for "
+       "in-range negative indices, strict-DER ECDSA over the Lean curve): eval_equiv_real/verify_equiv_real with "
+       "CodesepInsensitive and HashesOK discharged. Remaining hypotheses: transaction fields in wire range, index "
+       "not below −|vin| (D7), admissible flags (D6), EvalScript caller stack ≤ 1000 items. The signature check is "
+       "the same function on both sides (the property's strict-DER/SEC1 domain). T1: all 256 opcodes, names, "
+       "disabled set, limits. T2: every 1-opcode program × ~60 stacks × 12 flag sets, grammar programs with real "
+       "signatures, the multisig signature-list matrix, limit probes, multi-call histories.",
+  note=TB + "OpenSSL's tolerant DER/pubkey parsing is outside the model (the property's stated domain restriction).",
+  tech="Lean 4 proof (forward simulation model ↔ reference interpreter, induction over the operation list) + tables + correspondence (exhaustive short programs)"),
+ 'C07': dict(
+  text="PROVED for ARBITRARY byte lists as scriptSig/scriptPubKey and any integer index: structural termination; the "
+       "only non-validation outcomes are IndexError at an index below −|vin| (or SINGLE below −|vout|) and "
+       "AssertionError for CLEANSTACK without P2SH (only_known_findings_real, raises_real_iff — KNOWN FINDINGS D7, "
+       "D6), every other IndexError/KeyError/struct.error/AssertionError/invalid-script site of the model is dead "
+       "(verify_contained_real, for transactions with fields in wire range); the captured error state respects "
+       "≤ 1003 items / ≤ 221 counted ops / ≤ 520-byte elements (error_state_limits_real, no hypothesis) and ≤ 1000 / "
+       "≤ 201 between operations. 'Never modifies transaction or scripts' holds by purity of the model; its content "
+       "is C09's verify_keeps_objects and T2. T2: random and structure-aware mutated byte strings (0..10 001 bytes, "
+       "truncated pushes at every position, P2SH with garbage redeem scripts), the signature/pubkey operand matrix "
+       "(every truncation point, every short string), mutable and immutable transactions, indices incl. wrapping "
+       "negatives; exception family AND captured state (stack, altstack, nOpCount) compared; txTo and scripts "
+       "compared before/after. Transactions whose fields are outside the wire range (accepted by the public "
+       "constructors) make struct.error escape from a signature check: outside the theorems' hypothesis, see "
+       "DESIGN §11a (D21).",
+  note=TB + "OpenSSL's tolerant DER parsing: where the library accepts what the strict model rejects only containment is compared.",
+  tech="Lean 4 proof (dead-branch / invariant by induction over interpreter steps) + correspondence on arbitrary byte strings"),
+ 'C08': dict(
+  text="PROVED for all integers / all byte strings / all token lists: script-number codec bijection at spec and at "
+       "code level (MPI route), builder = reference minimal encoding (incl. bool and non-coercible element kinds), "
+       "iter∘build = canonical tokens, build∘iter∘build = build, raw iteration is a partition with the truncated-push "
+       "remainder and its carried data, every predicate = an independent generative characterisation (concatenation "
+       "of valid operations / fixed byte layouts), sigop counts (both modes) = Core's GetOp-based count plus "
+       "compositional laws. T2: all scripts ≤ 2 bytes exhaustively through every observer, token lists through every "
+       "iterable and element kind, bytes/bytearray.",
+  note=TB + "bn2vch/encode_op_pushdata fail at 2^32-byte encodings; theorems state that boundary.",
+  tech="Lean 4 proof (structural induction over scripts) + model/implementation correspondence (exhaustive short scripts)"),
+ 'C09': dict(
+  text="PROVED over all operation histories on a heap model with Python reference semantics (objects, shared "
+       "children, per-object hash caches, from_* constructors as coded, RawSignatureHash executed on the heap): the "
+       "invariant (filled caches equal the hash of the current serialisation; immutable roots reach only immutable "
+       "objects; copies are fresh) holds initially and is preserved by every operation of the property's catalogue "
+       "AND of the extended catalogue with by-reference assignments (inv_reachable, inv_reachable_ext); identifiers "
+       "and serialisation reflect current values incl. shared parts; immutable objects/snapshots are stable under "
+       "every operation; sighash/verify leave every existing object unchanged; setattr/delattr on immutables "
+       "rejected; refinement to the pure value-semantics spec for the base catalogue (refines_value_spec — it can "
+       "only detect aliasing/caching/mutability errors: serialisation and identifiers are shared terms whose content "
+       "is C01/C02). UNPROVED (kept at full strength in Props/C09.lean): refines_alias_spec for the by-reference "
+       "catalogue — tied by T2, every history is run on the heap model AND the aliasing spec inside the driver. T2: "
+       "random histories (all histories ≤ 3 ops exhaustively in the thorough tier) on real objects, every container "
+       "kind, default-witness construction; serialisation/ids/hash/== of every live object compared after every step.",
+  note=TB + "Objects are created through the operation catalogue; witness-v0 sighash is modelled by its heap footprint.",
+  tech="Lean 4 proof (invariant by induction over histories + refinement to a value spec) + correspondence on operation histories"),
+ 'C10': dict(
+  text="PROVED for every byte string / every string: encode/decode = big-integer reference, mutual inverses "
+       "(leading zeros/'1's), invalid character ⇔ InvalidBase58Error, CBase58Data accepts exactly "
+       "version‖payload‖H(version‖payload)[:4] with total length ≥ 5 and otherwise raises the checksum error, text "
+       "round trip for all 256 versions (for SHA-256d with the digest length proved: check_roundtrip_sha256d). "
+       "T1: alphabet. T2: all byte strings ≤ 2 and alphabet strings ≤ 3 exhaustively, every single-character "
+       "corruption of valid strings, non-ASCII input.",
+  note=TB,
+  tech="Lean 4 proof (Nat.digits-style numeral lemmas) + generated-table equality + model/implementation correspondence"),
+ 'C11': dict(
+  text="PROVED: polymod = BIP173 BCH residue, checksum_verifies, convertbits padding rule and round trip, decode "
+       "accepts ⇔ the declarative Spec.ValidSegwit, encode_decode for all versions/lengths, mixed case rejected, and "
+       "the code distance: any 1–4 substitutions anywhere in a valid ≤ 90-character address are rejected "
+       "(detects_le2, detects_le4 — both kernel-checked with the standard axioms: the weight-3/4 bound is reduced to "
+       "963 `decide +kernel` shard theorems over a generated, untrusted look-up table whose coverage is itself a "
+       "theorem). Truncation/extension/insertion/deletion: T2 only (the BCH code guarantees nothing there). T1: "
+       "charset and generator read behaviourally. T2: every single substitution incl. non-ASCII code points with "
+       "special case mappings, sampled-or-exhaustive doubles, sampled triples/quadruples.",
+  note=TB,
+  tech="Lean 4 proof (GF(2)-linear algebra of the BCH code; sharded decide +kernel for the distance bound) + tables + correspondence"),
+ 'C12': dict(
+  text="PROVED over all selection histories from the fresh-import state and all strings: after any history params = "
+       "the last selected chain (coreparams the same object from the first SelectParams on); round trip "
+       "script→address→text→address→script for the 4 templates × 4 chains with the prescribed class/prefix/payload; "
+       "refuse_total (any text is a valid address of the selected chain or CBitcoinAddressError — no other outcome); "
+       "cross-chain refusal (base58: unconditional; bech32 vs base58 re-reading: under the explicit 32-bit-checksum "
+       "hypothesis). Bare UNCOMPRESSED pubkey scripts are converted by hashing 64 of the 65 key bytes: KNOWN FINDING "
+       "D18 (the test suite pins it; the model is property-conforming). T1: chain version bytes/HRP. T2: random "
+       "selection histories incl. fresh import, cross-chain addresses, witness versions 1..16, mutated strings.",
+  note=TB + "Base58 payload length of foreign text is deliberately not constrained (O2).",
+  tech="Lean 4 proof (invariant over selection histories, decision logic) + generated-table equality + correspondence"),
+ 'C13': dict(
+  text="PARTIAL. PROVED (what python-bitcoinlib itself computes): strict-DER encode/decode round trip and "
+       "strictness, CompareBigEndian = sign of the integer difference, IsLowDERSignature ⇔ 0 < s ≤ n/2 on strict DER "
+       "with no IndexError, signature_to_low_s mirrored over a contract of the three OpenSSL calls (result ∈ {s, n−s}, "
+       "low, idempotent), CECKey.sign = strict DER of (r, lowS s) under that contract, WIF round trip at payload AND "
+       "text level under every chain's version byte, SEC1 decoding of the reference for uncompressed/hybrid keys, "
+       "curve-constant kernel checks (G on curve, n·G = ∞), abstract ECDSA over any prime-order group. T2 ONLY (the "
+       "arithmetic runs inside OpenSSL): public key = k·G, verify ⇔ reference verification, is_fullyvalid ⇔ SEC1 "
+       "point — tied against the independent Lean secp256k1 on secrets 1, 2, n−1, n−2, …, a verification matrix "
+       "incl. twins/0/n, on/off-curve and hybrid keys, several live key objects used in interleaved order, four "
+       "chains. T1: chain version bytes.",
+  note=TB + "Not proved: that the Lean secp256k1 formulas form a group of order n; OpenSSL behaviour; random nonces.",
+  tech="Lean 4 proof of the glue (DER, low-S, WIF, SEC1) + abstract ECDSA algebra + correspondence against a Lean reference curve"),
+ 'C14': dict(
+  text="PARTIAL. PROVED: message digest = SHA-256d of varint-prefixed magic ‖ varint-prefixed UTF-8 message for any "
+       "length, header byte 27+recid+4·compressed and its inverse as used by recover_compact, sign_compact layout, "
+       "recover models the digest shift for long hashes, VerifyMessage's decision over address TEXT (true only for "
+       "the Base58Check text of the recovered key's P2PKH address: false for any other text incl. other address "
+       "types with the same hash160), abstract recovery algebra (recover_correct; a different digest residue "
+       "recovers a different key). UNPROVED (kept at full strength): recover_eq_reference. T2 ONLY: that the "
+       "recovered key is the signer's, rejection of other messages on the concrete curve — Lean recovery must "
+       "reproduce the signer's key, VerifyMessage true for the signer's address, false for other keys, other "
+       "address types and perturbed messages; histories with several keys across chain switches.",
+  note=TB + "OpenSSL (BN_*, EC_POINT_*) inside recover is covered by T2 only. Observation O15 (outside the property: a forged, not a library-made, signature): the infinity key 00 makes VerifyMessage accept for one fixed address.",
+  tech="Lean 4 proof of the glue (digest layout, header byte, decision logic) + abstract recovery algebra + correspondence against a Lean reference curve"),
+ 'C15': dict(
+  text="PROVED for every non-empty hash list / transaction list in wire range: the loop-based merkle tree's last "
+       "node = the recursive reference root (incl. the known duplicate-leaf malleability of the consensus algorithm), "
+       "witness root with coinbase zeroed / NoWitnessData, constructor decision (zero root filled, wrong root "
+       "refused), weight = 3·stripped + full for transactions (both code branches) and blocks; digest length proved "
+       "for SHA-256d. T2: counts 1..70, 2^k±1, every CompactSize boundary of every count/length for every size "
+       "observable, duplicates, ± witness, blocks built from transactions with a history (warmed caches, in-place "
+       "edits), out-of-range mutable fields.",
+  note=TB + "hash256 opaque in the abstract theorems.",
+  tech="Lean 4 proof (loop invariant = recursion) + model/implementation correspondence"),
+ 'C16': dict(
+  text="PROVED for blocks/transactions with fields in wire range: CheckTransaction accepts ⇔ Spec.ValidTx, "
+       "CheckBlockHeader ⇔ Spec.ValidHeader, CheckBlock ⇔ Spec.ValidBlock (both switches; Spec with its own "
+       "characterisation of coinbase/null outpoint/witness presence), every rejection is a validation error (no "
+       "IndexError/invalid-script outcome reachable), commitment index = last matching output, sigop count = Core's, "
+       "monotonicity in the switches, a duplicated last transaction is never valid. T1: limits and the chain table "
+       "whose work limits are Bitcoin Core's values. T2: per generated valid block every single-rule violation on "
+       "both sides of each boundary under each chain.",
+  note=TB + "PoW part reuses C17's pow_iff; hash256/merkle are shared opaque symbols (digest length proved).",
+  tech="Lean 4 proof (decision logic accept ⇔ Spec) + generated-table equality + correspondence (fault catalogue)"),
+ 'C17': dict(
+  text="PROVED over all 32-bit compact values / all 256-bit integers: decode_spec, toCompact_canonical, decode_encode "
+       "(= truncation to three sign-magnitude bytes), encode_decode on canonical values, pow_iff against Bitcoin "
+       "Core's SetCompact/CheckProofOfWork and pow_iff_target in the property's own wording, rejection is a "
+       "validation error for a ≥ 32-byte hash (the struct.error branch of a short hash is explicit), byte length = "
+       "(bit_length+7)>>3. T1: per-chain work limits = Bitcoin Core's consensus.powLimit values (D22: signet had "
+       "mainnet's). T2: the full exponent × boundary-mantissa grid, all bit lengths, hashes at target±1 under the "
+       "four chains in both orders.",
+  note=TB + "Python int &,>>,<< on non-negative ints modelled as mod/div/mul by powers of two.",
+  tech="Lean 4 proof (omega/interval_cases arithmetic) + generated-table equality + correspondence"),
+ 'C18': dict(
+  text="PROVED for all 17 message types and any field values in range, for every protocol version with exactly the "
+       "fields it carries: payload = protocol layout, frame = magic‖command‖length‖checksum‖payload (Spec command "
+       "padding and checksum defined independently of the model), parse∘frame = message with the stream left exactly "
+       "after the frame, re-framing identical, streams of frames parse in order (parseAll, the function the driver "
+       "runs), wrong magic/checksum rejected, every strict prefix → truncation, length_guard and "
+       "position_le_frame_end (never reads beyond the frame; > MAX_SIZE → error after 24 bytes); checksum length "
+       "proved. Altered-payload rejection assumes the 32-bit checksum differs (explicit hypothesis). Excluded from "
+       "the theorems' domain and listed in DESIGN §11a: nVersion 10300 is read as 300 (mirrors Bitcoin Core), "
+       "addresses built for a protocol version without the time field cannot be parsed back. T1: the 17 commands "
+       "covered by messagemap, version constants, chain magic. T2: every single-byte corruption and truncation of "
+       "small frames under the four chains, histories on live objects (in-place edits, chain tours, stream reuse).",
+  note=TB,
+  tech="Lean 4 proof (codec round trip with stream position, fault-class decision logic) + tables + correspondence"),
+ 'C19': dict(
+  text="PARTIAL on the send side. PROVED: amount_in_exact (any JSON number text denoting k satoshis, |k| < 10^28, is "
+       "converted to exactly k, incl. the number scanner and Decimal's 28-digit context), hash_roundtrip / "
+       "b2lx_is_core_form, hex_transport, error_reply_raises (a non-null error always raises the class registered for "
+       "its code, never a result — registered, unregistered, missing, unhashable codes, non-dict errors), "
+       "ids_strictly_increase over all call/batch histories, the checker satoshisDenoted decides 'the emitted text "
+       "denotes exactly k satoshis'. Send side: amount_out_exact_partial is proved over the rationals with spacing "
+       "and shortest-repr contracts as hypotheses (IEEE-754/float.__repr__ are not modelled) — T2 ONLY in effect: "
+       "every request body is re-parsed with exact decimal arithmetic. Non-reply bodies (non-UTF-8, non-object JSON) "
+       "are modelled outcomes compared strictly (observations outside the statement). T1: error-code table. T2 via "
+       "an injected scripted HTTP connection: amounts at boundaries and every fractional-digit pattern both "
+       "directions, chained hash-carrying calls, every registered/unregistered code, id sequences across faults.",
+  note=TB + "Which method converts which field is T2 only.",
+  tech="Lean 4 proof (decimal exactness, decision logic, counter invariant) + tables + correspondence via injected connection"),
+ 'C20': dict(
+  text="PARTIAL for the constructor's floating-point sizing. PROVED for every seed/tweak and every byte list: "
+       "Python-int MurmurHash3 with late masking = UInt32 reference, bits set by insert = BIP37 schedule, bits after "
+       "any history = initial bits ∪ scheduled bits of the inserted elements, contains = membership predicate, "
+       "no_false_negative over all histories of inserts and wire round trips, caps (≤ 36000 bytes, ≤ 50 functions) "
+       "and built ≤ requested for all sizing inputs, ser_roundtrip, empty_matches_all. math.log and the float "
+       "products are abstract rationals (the harness evaluates the BIP37 formula with 60-digit decimals and compares "
+       "where robust). T1: caps, flags. T2: all tail lengths, insertion histories interleaved with queries and "
+       "round trips, wire filters with empty data and any hash-function count.",
+  note=TB,
+  tech="Lean 4 proof (UInt32 wrap-around = masked Nat arithmetic; monotone-bits invariant over histories) + tables + correspondence"),
 }
-
-REASON_PENDING = "check under construction in this build round (model/theorems not yet merged); see DESIGN.md §10/§11"
 
 
 def main():
@@ -218,7 +274,8 @@ def main():
             "property_id": pid, "quick_cmd": "./check %s quick" % pid, "thorough_cmd": "./check %s thorough" % pid,
             "evidence_file": "evidence/%s.json" % pid, "replay_cmd_template": "./check %s --replay {path}" % pid,
             "engine": "lean4-proof+correspondence",
-            "level_claimed": {"category": "proof", "text": d['text'], "design_ref": "DESIGN.md §6 %s, §11" % pid},
+            "level_claimed": {"category": "proof", "text": d['text'],
+                              "design_ref": "DESIGN.md §6 %s, §11; docs/THEOREMS.md; docs/AUDIT-1.md, AUDIT-2.md" % pid},
             "level_note": d['note'], "technique": d['tech']})
     claimed = [c['property_id'] for c in checks]
     m = {"version": 1,
@@ -228,14 +285,14 @@ def main():
                    "baseline_off_cmd": "cd /repo && /venv/bin/python -m pytest -q -p no:cacheprovider",
                    "source_commits": [], "add_only": True},
          "engines": [{"name": "lean4-proof+correspondence", "path": "lean/", "serves_properties": claimed,
-                      "kind_free_text": "Lean 4 model + theorems (lake build, #print axioms audit, leanchecker in "
-                                        "the thorough tier), T1 regenerated tables, T2 differential run of the "
-                                        "compiled model driver against the real code"}],
+                      "kind_free_text": "Lean 4 model + theorems (lake build, #print axioms audit, leanchecker and "
+                                        "system-module audit in the thorough tier), T1 regenerated tables, T2 "
+                                        "differential run of the compiled model driver against the real code"}],
          "checks": checks,
-         "not_applicable": [{"property_id": p, "reason": P.get(p, {}).get('na', REASON_PENDING)}
-                            for p in props if p not in claimed],
+         "not_applicable": [{"property_id": p, "reason": "check under construction"} for p in props if p not in claimed],
          "notes": "See DESIGN.md. Exit 2 = infrastructure failure (no VIOLATION line). known_findings.json lists "
-                  "recorded and repaired defects."}
+                  "recorded (known) and repaired (fixed) defects; category 'proof' with a text starting PARTIAL "
+                  "means: theorems for the part the model can carry, the rest tied by the correspondence run only."}
     json.dump(m, open(os.path.join(VERIF, 'MANIFEST.json'), 'w'), indent=1)
     print('claimed:', claimed)
 
